@@ -608,7 +608,7 @@ func (w *world) guarded(f func(ctx context.Context) error) (err error, hung bool
 	defer cancel()
 	done := make(chan error, 1)
 	go func() { done <- f(ctx) }()
-	limit := 60 * time.Second
+	limit := 30 * time.Second
 	select {
 	case err = <-done:
 		return err, false
